@@ -1,55 +1,5 @@
-import OpcuaModel.Base.Loop
-import OpcuaModel.Model.CodecText
-import OpcuaModel.Model.CodecWt
-import OpcuaModel.Gen.Types
+import OpcuaModel.Model.CodecDrv
 /-
-  Driver for C01 (also used by C02 and C03).
-    enc <fuel> <type> <value>            → ok <hex> | fail <kind>
-    dec <fuel> <limit|-> <type> <hex>    → ok <consumed> <value> | fail <kind>
-    wt <fuel> <type> <value>             → true | false      (domain of the round-trip theorem)
-    norm <fuel> <type> <value>           → <value>           (normal form of the round-trip theorem)
+  Driver for C01: the codec line protocol (see OpcuaModel/Model/CodecDrv.lean).
 -/
-open Opcua Opcua.Codec
-
-def named (n : String) : Option Ty := (Gen.namedTypes.find? (·.1 == n)).map (·.2)
-
-def envOf (limit : Option Nat) : Env := ⟨limit, Gen.extObjTypes⟩
-
-def handle : List String → String
-  | "enc" :: fuel :: rest =>
-    match fuel.toNat?, pTy named rest with
-    | some f, some (ty, rest) =>
-      match pVal rest with
-      | some (v, []) =>
-        match encode (envOf none) f ty v with
-        | .ok b => "ok " ++ toHex b
-        | .error e => "fail " ++ failName e
-      | _ => "bad-value"
-    | _, _ => "bad-op"
-  | "dec" :: fuel :: limit :: rest =>
-    match fuel.toNat?, pTy named rest with
-    | some f, some (ty, [hex]) =>
-      match fromHex hex with
-      | some b =>
-        match decode (envOf limit.toNat?) f ty ⟨b, 0⟩ with
-        | .ok v s => s!"ok {b.length - s.buf.length} {printVal v}"
-        | .fail e => "fail " ++ failName e
-      | none => "bad-hex"
-    | _, _ => "bad-op"
-  | "wt" :: fuel :: rest =>
-    match fuel.toNat?, pTy named rest with
-    | some f, some (ty, rest) =>
-      match pVal rest with
-      | some (v, []) => toString (wt (envOf none) f ty v)
-      | _ => "bad-value"
-    | _, _ => "bad-op"
-  | "norm" :: fuel :: rest =>
-    match fuel.toNat?, pTy named rest with
-    | some f, some (ty, rest) =>
-      match pVal rest with
-      | some (v, []) => printVal (norm (envOf none) f ty v)
-      | _ => "bad-value"
-    | _, _ => "bad-op"
-  | _ => "bad-op"
-
-def main : IO Unit := runDriver handle
+def main : IO Unit := Opcua.runDriver Opcua.CodecDrv.handle
